@@ -115,9 +115,7 @@ def monitor(case, ilog):
             if t[2] == "inv_enq":
                 inv_enq[(a[0], a[1], a[2])] = idx
             elif t[2] == "ret_enq":
-                for x in inv_enq:
-                    if x[1] == a[0] and x[2] == a[1]:
-                        ret_enq[x] = idx
+                ret_enq[(a[0], a[1], a[2])] = idx
             elif t[2] == "inv_deq":
                 cur_deq[int(t[0])] = [(a[0], a[1]), idx, None]
             elif t[2] == "ret_deq":
@@ -158,7 +156,7 @@ def monitor(case, ilog):
             fails.append(("conservation", "an item is drained twice: %s" % (drain,)))
         lost = [x for x in inv_enq if x not in ret_deq and x not in drain]
         if lost:
-            fails.append(("conservation", "items enqueued but neither dequeued nor left in the queue: %s" % (lost,)))
+            fails.append(("conservation", "items enqueued but neither returned by a dequeue nor by the sequential drain after the run (whose last dequeue reported empty): %s" % (lost,)))
         if size is not None and size != len(drain):
             fails.append(("conservation", "size() = %d at the end of the run but %d items were left in the queue" % (size, len(drain))))
     INF = 10 ** 9
@@ -262,7 +260,8 @@ def run_batch(ctx, model, impl, cases, tag):
 
 
 def report_monitor(ctx, bad):
-    c, f, lines = bad[0]
+    # report the smallest failing case (fewest operations, then shortest schedule)
+    c, f, lines = min(bad, key=lambda b: (sum(len(th) for th in b[0]["threads"]), len(b[0]["sched"]), len(b[2])))
     kinds = sorted(set(x[0] for x in f))
     ctx.violation("SegmentedQueue (real code, %s) violates %s: %s" % (VARIANTS.get(c["cfg"][1], "?"), "/".join(kinds), f[0][1]),
                   {"case": c, "failures": [list(x) for x in f[:6]], "impl_log": lines})
@@ -289,7 +288,7 @@ def run(ctx):
         ctx.coverage.update({"evaluations": 1, "distinct_nontrivial": len(st["nontrivial"]), "rule": "replay of one case"})
         return ctx.finish(vcheck.STD_TRUSTED)
 
-    n = 9000 if ctx.thorough() else 2400
+    n = 9000 if ctx.thorough() else 1500
     cases = []
     cdir = os.path.join(vcheck.VERIF, "corpus", "C08")
     for f in sorted(os.listdir(cdir)) if os.path.isdir(cdir) else []:
@@ -302,7 +301,7 @@ def run(ctx):
         report_monitor(ctx, bad)
     elif div:
         # the correspondence broke: look for a failure of the property itself over an enlarged seed set
-        more = gen_cases(ctx, 4 * n, tag="s")
+        more = gen_cases(ctx, 2 * n, tag="s")
         st2, bad2, _ = run_batch(ctx, None, impl, more, "search")
         if bad2:
             report_monitor(ctx, bad2)
